@@ -134,7 +134,7 @@ impl HeaderType {
             137 => HeaderType::MasteringDisplayColourVolume,
             142 => HeaderType::ColourRemappingInfo,
             147 => HeaderType::AlternativeTransferCharacteristics,
-            188 => HeaderType::AlternativeDepthInfo,
+            181 => HeaderType::AlternativeDepthInfo,
             _ => HeaderType::ReservedSeiMessage(id),
         }
     }
